@@ -17,6 +17,7 @@ def diff_snap(a, b):
 
 class Prop(BaseProp):
     ID = "C18"
+    ANCHORS = ['cminx:document', 'cminx:document_single_file', 'cminx.rstwriter:RSTWriter.write_to_file', 'cminx:main']
     LEVEL = "exploration"
     RULE = ("trees and single files x output directory absolute / relative / inside the input tree / a parent of it / "
             "pre-populated with foreign files (incl. a foreign index.rst in a sub-directory the run does not own) x "
